@@ -461,8 +461,13 @@ def check(prop, tier):
                 if is_nontrivial(ev):
                     res.distinct.add(nontrivial_key(ev))
             if sample:
-                for ev in events[:2]:
-                    res.add_sample({k: ev[k] for k in ("op", "args", "pre", "arg", "st", "ret", "post", "emb")})
+                shown = 0
+                for ev in events:
+                    if ev["st"] == "ok" and is_nontrivial(ev) and len(ev["pre"].get("ents", [])) >= 2:
+                        res.add_sample({k: ev[k] for k in ("op", "args", "pre", "arg", "st", "ret", "post", "emb")})
+                        shown += 1
+                        if shown == 2:
+                            break
             res.judge(events, verdicts, findings, rel)
 
         for pi, plan in enumerate(plans):
